@@ -42,6 +42,7 @@ def pytest_configure(config):
         mod = importlib.import_module(f"vf.checks.{name}")
         try:
             mod.setup(rec, "quick")
+            contracts.propagate_overrides()
             _state["mods"].append(name)
         except Exception as e:  # pragma: no cover
             print(f"vf.pytest_monitor: could not install {name}: {e!r}", file=sys.stderr)
